@@ -206,6 +206,12 @@ func bcastRandomCase(c *mon.Case) {
 							err = wr.predErr
 							// some predicates report "done" together with their error
 							done = wr.id%2 == 0
+							if wr.id%3 == 0 && wr.cancelStamp.Load() == 0 {
+								// the waiter's context ends while the predicate is failing: the predicate's error is still what Wait returns
+								wr.cancelStamp.Store(c.Stamp())
+								wr.cancel()
+								c.Count("cancel_inside_failing_predicate", 1)
+							}
 						} else {
 							done = w.gen >= wr.threshold
 						}
@@ -260,6 +266,18 @@ func bcastRandomCase(c *mon.Case) {
 					w.gen++
 					bc()
 				})
+				if (j*7+k)%6 == 5 {
+					// a callback that panics after its work; the caller recovers. The critical section must have been left.
+					func() {
+						defer func() { _ = recover() }()
+						w.b.HoldLock(func(bc func(), gw func() <-chan struct{}) {
+							body(bc, gw)
+							panic("callback panics (recovered by its caller)")
+						})
+					}()
+					c.Count("panicking_callbacks", 1)
+					continue
+				}
 				switch (j + k) % 5 {
 				case 0, 1, 2:
 					w.b.HoldLock(body)
@@ -373,7 +391,9 @@ func bcastRandomCase(c *mon.Case) {
 			}
 		case wr.err == context.Canceled:
 			cs := wr.cancelStamp.Load()
-			if wr.deadline && wr.ctx.Err() != nil {
+			if wr.lastErr != nil {
+				c.Violate("bcast", "wait-replaced-predicate-error", "waiter %d returned context.Canceled although its last predicate evaluation returned the error %v: the predicate's error must be returned unchanged (context cancelled at %d)", wr.id, wr.lastErr, cs)
+			} else if wr.deadline && wr.ctx.Err() != nil {
 				// the deadline passed (a context is done for good once it is done)
 			} else if cs == 0 || cs > wr.retStamp {
 				c.Violate("bcast", "wait-canceled-without-cancel", "waiter %d returned context.Canceled at %d but its context was cancelled at %d (0 = never)", wr.id, wr.retStamp, cs)
